@@ -20,7 +20,7 @@ Definition id_or_0 (o : option Z) : Z := match o with Some x => x | None => 0 en
 (* list(f( *pattern )) : the identifiers matching a pattern, [] when the pattern is rejected *)
 Definition pattern_ids (off : Z) (s : shape) (pat : list (option Z)) : list Z :=
   match pattern_indices s pat with
-  | Some l => map (fun i => id_or_0 (to_id off s i)) l
+  | Some l => map (fun i => id_or_0 (vg_to_id off s i)) l
   | None => []
   end.
 
@@ -48,17 +48,17 @@ Fixpoint mul_zip (s v : list Z) : list Z :=
   | x :: s', y :: v' => x * y :: mul_zip s' v'
   | _, _ => []
   end.
-Definition forbid (off n m i j : Z) : option (list Z) :=     (* None: ValueError *)
+Definition bm_forbid (off n m i j : Z) : option (list Z) :=     (* None: ValueError *)
   if j >=? 2 ^ bitlength m then None
   else match znth j (flips (bitlength m)) with
        | Some sg => Some (mul_zip sg (pattern_ids off (BinMap n m) [Some i; None]))
        | None => None
        end.
 Definition forbid_cl (off n m i j : Z) : list Z :=
-  match forbid off n m i j with Some c => c | None => [] end.
+  match bm_forbid off n m i j with Some c => c | None => [] end.
 
 (* ---------- the five constraints ---------- *)
-Definition force_complete (off : Z) (mp : mapping) : list ir :=
+Definition vm_force_complete (off : Z) (mp : mapping) : list ir :=
   match mp with
   | MBinary n m =>
       flat_map (fun i => map (fun j => IClause (forbid_cl off n m i j)) (zrange m (2 ^ bitlength m))) (m_domain mp)
@@ -66,7 +66,7 @@ Definition force_complete (off : Z) (mp : mapping) : list ir :=
       map (fun x => IClause (pattern_ids off (mapping_shape mp) [Some x; None])) (m_domain mp)
   end.
 
-Definition force_functional (off : Z) (mp : mapping) : list ir :=
+Definition vm_force_functional (off : Z) (mp : mapping) : list ir :=
   match mp with
   | MBinary _ _ => []
   | MUnary adj R => map (fun x => ILin (pattern_ids off (mapping_shape mp) [Some x; None]) CLe 1) (m_domain mp)
@@ -74,7 +74,7 @@ Definition force_functional (off : Z) (mp : mapping) : list ir :=
 
 (* second component: the call ends with ValueError (binary mappings: the loop asks for bit
    position y for every y in range(m), and m exceeds the number of bits) *)
-Definition force_surjective (off : Z) (mp : mapping) : list ir * bool :=
+Definition vm_force_surjective (off : Z) (mp : mapping) : list ir * bool :=
   match mp with
   | MUnary adj R => (map (fun y => IClause (pattern_ids off (mapping_shape mp) [None; Some y])) (m_range mp), false)
   | MBinary n m =>
@@ -82,7 +82,7 @@ Definition force_surjective (off : Z) (mp : mapping) : list ir * bool :=
        bitlength m <? m)
   end.
 
-Definition force_injective (off : Z) (mp : mapping) : list ir :=
+Definition vm_force_injective (off : Z) (mp : mapping) : list ir :=
   match mp with
   | MUnary adj R => map (fun y => ILin (pattern_ids off (mapping_shape mp) [None; Some y]) CLe 1) (m_range mp)
   | MBinary n m =>
@@ -90,10 +90,10 @@ Definition force_injective (off : Z) (mp : mapping) : list ir :=
                              (pairs (m_domain mp))) (m_range mp)
   end.
 
-Definition force_nondecreasing (off : Z) (mp : mapping) : list ir :=
+Definition vm_force_nondecreasing (off : Z) (mp : mapping) : list ir :=
   match mp with
   | MUnary adj R =>
-      let fd u v := id_or_0 (to_id off (mapping_shape mp) [u; v]) in
+      let fd u v := id_or_0 (vg_to_id off (mapping_shape mp) [u; v]) in
       flat_map (fun uu =>
         flat_map (fun v1 =>
           flat_map (fun v2 => if v1 >? v2 then [IClause [- fd (fst uu) v1; - fd (snd uu) v2]] else [])
